@@ -53,3 +53,998 @@ Proof.
       rewrite pat_cons2. simpl is_prefix. destruct i; auto.
       change (b :: p' ++ [wc]) with ((b :: p') ++ [wc]). rewrite IHp. reflexivity.
 Qed.
+
+Lemma name_eqb_sym : forall a b, name_eqb a b = name_eqb b a.
+Proof.
+  intros. destruct (name_eqb a b) eqn:E.
+  - apply name_eqb_eq in E. subst. symmetry. apply name_eqb_refl.
+  - symmetry. apply name_eqb_neq. apply name_eqb_neq in E. congruence.
+Qed.
+
+Lemma pat_plain : forall wc n i, name_plain wc n = true -> pat_matches wc n i = name_eqb n i.
+Proof.
+  induction n as [|c n IH]; intros i H; [discriminate|].
+  destruct n as [|d n'].
+  - simpl in H. simpl pat_matches. destruct (c =? wc); [discriminate|reflexivity].
+  - rewrite pat_cons2. change (name_plain wc (c :: d :: n')) with (name_plain wc (d :: n')) in H.
+    destruct i; [reflexivity|]. rewrite IH by assumption. reflexivity.
+Qed.
+
+Lemma name_plain_nonempty : forall wc n, name_plain wc n = true -> n <> [].
+Proof. intros wc [|] H; [discriminate|congruence]. Qed.
+
+Lemma mem_In : forall n l, mem n l = true <-> In n l.
+Proof.
+  intros. unfold mem. rewrite existsb_exists. split.
+  - intros [x [H1 H2]]. apply name_eqb_eq in H2. subst; auto.
+  - intros H. exists n. split; auto. apply name_eqb_refl.
+Qed.
+
+Lemma mem_false : forall n l, mem n l = false <-> ~ In n l.
+Proof.
+  intros. split; intros H.
+  - intros HI. apply mem_In in HI. congruence.
+  - destruct (mem n l) eqn:E; auto. apply mem_In in E. contradiction.
+Qed.
+
+Lemma mem_app : forall n a b, mem n (a ++ b) = mem n a || mem n b.
+Proof. intros. unfold mem. apply existsb_app. Qed.
+
+(* ---------- machine: one-step equations ---------- *)
+Section Machine.
+Variables (wc : N) (rs : ruleset) (pk : packet).
+
+Lemma run_nil_nil : forall f, run (S f) wc rs pk [] [] = RReturn.
+Proof. reflexivity. Qed.
+
+Lemma run_nomatch : forall f m a rest st, match_pkt wc m pk = false ->
+  run (S f) wc rs pk (Rule m a :: rest) st = run f wc rs pk rest st.
+Proof. intros. simpl. rewrite H. reflexivity. Qed.
+
+Lemma run_goto_ep : forall f m k n rest st, match_pkt wc m pk = true ->
+  run (S f) wc rs pk (Rule m (AGoto (CEp k n)) :: rest) st = REndpoint k n.
+Proof. intros. simpl. rewrite H. reflexivity. Qed.
+
+Lemma run_goto_child : forall f m k s rest st rules, match_pkt wc m pk = true ->
+  find_chain (CChild k s) (rs_chains rs) = Some rules ->
+  run (S f) wc rs pk (Rule m (AGoto (CChild k s)) :: rest) st = run f wc rs pk rules st.
+Proof. intros. simpl. rewrite H, H0. reflexivity. Qed.
+
+Lemma run_return : forall f m rest, match_pkt wc m pk = true ->
+  run (S (S f)) wc rs pk (Rule m AReturn :: rest) [] = RReturn.
+Proof. intros. simpl. rewrite H. reflexivity. Qed.
+
+Lemma run_terminal : forall f m a rest st r, match_pkt wc m pk = true ->
+  (a = ADrop /\ r = RDrop) \/ (a = AReject /\ r = RReject) \/ (a = AAccept /\ r = RAccept) ->
+  run (S f) wc rs pk (Rule m a :: rest) st = r.
+Proof. intros. simpl. rewrite H. destruct H0 as [[-> ->]|[[-> ->]|[-> ->]]]; reflexivity. Qed.
+
+Lemma match_iface : forall d pat, match_pkt wc (MIface d pat) pk = pat_matches wc pat (pkt_if d pk).
+Proof. reflexivity. Qed.
+
+(* scanning a run of exact-name rules that hand over to the endpoint chains of kind k *)
+Lemma scan_exact : forall k E ns f st,
+  Forall (fun n => name_plain wc n = true) ns ->
+  (length ns < f)%nat ->
+  run f wc rs pk (map (ep_rule k) ns ++ E) st =
+  if mem (pkt_if (kind_dir k) pk) ns then REndpoint k (pkt_if (kind_dir k) pk)
+  else run (f - length ns) wc rs pk E st.
+Proof.
+  induction ns as [|n ns IH]; intros f st HP Hf.
+  - simpl. rewrite Nat.sub_0_r. reflexivity.
+  - inversion HP; subst. destruct f as [|f]; [simpl in Hf; lia|].
+    cbn [map app]. unfold ep_rule at 1.
+    destruct (name_eqb n (pkt_if (kind_dir k) pk)) eqn:En.
+    + rewrite run_goto_ep by (rewrite match_iface, pat_plain; auto).
+      apply name_eqb_eq in En. subst n. unfold mem. simpl. rewrite name_eqb_refl. reflexivity.
+    + rewrite run_nomatch by (rewrite match_iface, pat_plain; auto).
+      rewrite IH; auto; [|simpl in Hf; lia].
+      unfold mem. simpl. rewrite name_eqb_sym, En. simpl. reflexivity.
+Qed.
+End Machine.
+
+(* ---------- the prefix tree, for any grouping that satisfies the stated conditions ---------- *)
+Definition all_names (gs : groups) : list name := concat (map snd gs).
+
+Lemma is_multi_cases : forall ns, is_multi ns = false -> ns = [] \/ exists n, ns = [n].
+Proof.
+  intros [|a [|b l]] H; auto; [right; eauto|]. unfold is_multi in H. simpl in H. discriminate.
+Qed.
+
+Section Tree.
+Variables (wc : N) (rs : ruleset) (pk : packet) (k : epkind) (cp : name) (E : list rule) (rE : result).
+Let i := pkt_if (kind_dir k) pk.
+Variable B : nat.
+Hypothesis HE : forall f, (length E < f)%nat -> run f wc rs pk E [] = rE.
+
+Lemma root_scan : forall gs f,
+  Forall (fun n => name_plain wc n = true) (all_names gs) ->
+  (forall g, In g gs -> is_multi (snd g) = true ->
+     find_chain (child_id k cp (fst g)) (rs_chains rs) = Some (map (ep_rule k) (snd g) ++ E)
+     /\ (length (snd g) + length E < B)%nat) ->
+  (forall g n, In g gs -> In n (snd g) -> is_prefix (fst g) n = true) ->
+  (forall g, In g gs -> is_multi (snd g) = true -> is_prefix (fst g) i = true ->
+     In i (all_names gs) -> In i (snd g)) ->
+  (length (flat_map (root_rule wc k cp) gs) + length E + B < f)%nat ->
+  run f wc rs pk (flat_map (root_rule wc k cp) gs ++ E) [] =
+  if mem i (all_names gs) then REndpoint k i else rE.
+Proof.
+  induction gs as [|[p ns] gs IH]; intros f HP Hfind Hpre Hcap Hf.
+  - simpl. apply HE. simpl in Hf. lia.
+  - unfold all_names in *. cbn [map concat flat_map snd fst] in *.
+    apply Forall_app in HP. destruct HP as [HPns HPrest].
+    assert (IH' : forall f', (length (flat_map (root_rule wc k cp) gs) + length E + B < f')%nat ->
+              run f' wc rs pk (flat_map (root_rule wc k cp) gs ++ E) [] =
+              if mem i (concat (map snd gs)) then REndpoint k i else rE).
+    { intros f' Hf'. apply IH; auto.
+      - intros g Hg. apply Hfind. right; auto.
+      - intros g n Hg. apply (Hpre g n). right; auto.
+      - intros g Hg Hm Hpi Hin. apply Hcap; auto. right; auto. apply in_or_app. right; auto. }
+    rewrite mem_app. unfold root_rule at 1. unfold root_rule at 1 in Hf. cbn [snd fst] in Hf |- *.
+    destruct (is_multi ns) eqn:Em.
+    + (* child chain *)
+      rewrite app_length in Hf. cbn [length] in Hf.
+      destruct f as [|f]; [lia|]. cbn [app].
+      destruct (Hfind (p, ns) (or_introl eq_refl) Em) as [Hfc Hsz]. cbn [fst snd] in Hfc, Hsz.
+      destruct (is_prefix p i) eqn:Epi.
+      * unfold child_id in *. rewrite (run_goto_child _ _ _ _ _ _ _ _ _ (map (ep_rule k) ns ++ E))
+          by (auto; rewrite match_iface, pat_wild; exact Epi).
+        rewrite scan_exact by (auto; lia). fold i.
+        destruct (mem i ns) eqn:Emi; [reflexivity|].
+        rewrite HE by lia. simpl.
+        destruct (mem i (concat (map snd gs))) eqn:Emr; [|reflexivity].
+        exfalso. apply mem_false in Emi. apply Emi.
+        apply (Hcap (p, ns)); auto. left; auto. apply in_or_app. right. apply mem_In. exact Emr.
+      * rewrite run_nomatch by (rewrite match_iface, pat_wild; exact Epi).
+        rewrite IH' by lia.
+        assert (mem i ns = false) as ->; [|reflexivity].
+        apply mem_false. intros Hin. specialize (Hpre (p, ns) i (or_introl eq_refl) Hin).
+        cbn [fst] in Hpre. congruence.
+    + apply is_multi_cases in Em. destruct Em as [->|[n ->]].
+      * simpl. apply IH'. simpl in Hf. exact Hf.
+      * cbn [app length] in *. destruct f as [|f]; [lia|].
+        inversion HPns; subst. fold (ep_rule k n).
+        destruct (name_eqb n i) eqn:En.
+        -- unfold ep_rule. rewrite run_goto_ep by (rewrite match_iface, pat_plain; auto).
+           apply name_eqb_eq in En. subst n. unfold mem at 1. simpl. fold i. rewrite name_eqb_refl. reflexivity.
+        -- unfold ep_rule. rewrite run_nomatch by (rewrite match_iface, pat_plain; auto).
+           rewrite IH' by lia. unfold mem at 1. simpl. rewrite name_eqb_sym, En. reflexivity.
+Qed.
+End Tree.
+
+(* ---------- sort.Strings order ---------- *)
+Lemma lex_leb_refl : forall a, lex_leb a a = true.
+Proof. induction a; simpl; auto. rewrite N.ltb_irrefl, N.eqb_refl. auto. Qed.
+
+Lemma lex_leb_total : forall a b, lex_leb a b = false -> lex_leb b a = true.
+Proof.
+  induction a; destruct b; simpl; intros H; try discriminate; auto.
+  destruct (N.ltb_spec a n); [discriminate|].
+  destruct (N.eqb_spec a n).
+  - subst. rewrite N.ltb_irrefl, N.eqb_refl. auto.
+  - destruct (N.ltb_spec n a); auto. lia.
+Qed.
+
+Lemma lex_leb_trans : forall a b c, lex_leb a b = true -> lex_leb b c = true -> lex_leb a c = true.
+Proof.
+  induction a; destruct b, c; simpl; intros H1 H2; try discriminate; auto.
+  destruct (N.ltb_spec a n), (N.ltb_spec n n0), (N.ltb_spec a n0); auto; try lia;
+    destruct (N.eqb_spec a n), (N.eqb_spec n n0), (N.eqb_spec a n0); try discriminate; try lia; eauto.
+Qed.
+
+Lemma lex_leb_antisym : forall a b, lex_leb a b = true -> lex_leb b a = true -> a = b.
+Proof.
+  induction a; destruct b; simpl; intros H1 H2; try discriminate; auto.
+  destruct (N.ltb_spec a n), (N.ltb_spec n a); try lia;
+    destruct (N.eqb_spec a n), (N.eqb_spec n a); try discriminate; try lia.
+  subst. f_equal. auto.
+Qed.
+
+Definition lex_le (a b : name) : Prop := lex_leb a b = true.
+
+From Coq Require Import Sorted Permutation.
+
+Lemma insert_sorted_perm : forall n l, Permutation (n :: l) (insert_sorted n l).
+Proof.
+  induction l; simpl; auto. destruct (lex_leb n a); auto.
+  eapply perm_trans; [apply perm_swap|]. constructor. auto.
+Qed.
+
+Lemma sort_names_perm : forall l, Permutation l (sort_names l).
+Proof.
+  induction l; simpl; auto. eapply perm_trans; [|apply insert_sorted_perm]. constructor; auto.
+Qed.
+
+Lemma insert_sorted_ss : forall n l, StronglySorted lex_le l -> StronglySorted lex_le (insert_sorted n l).
+Proof.
+  induction l; intros H; simpl.
+  - constructor; constructor.
+  - inversion H; subst. destruct (lex_leb n a) eqn:E.
+    + constructor; auto. constructor; auto.
+      eapply Forall_impl; [|exact H3]. intros x Hx. eapply lex_leb_trans; eauto.
+    + constructor; auto.
+      eapply Permutation_Forall; [apply insert_sorted_perm|]. constructor; auto.
+      apply lex_leb_total; auto.
+Qed.
+
+Lemma sort_names_ss : forall l, StronglySorted lex_le (sort_names l).
+Proof. induction l; simpl; [constructor|]. apply insert_sorted_ss; auto. Qed.
+
+Lemma sort_names_In : forall n l, In n (sort_names l) <-> In n l.
+Proof.
+  intros. split; intros H.
+  - eapply Permutation_in; [apply Permutation_sym, sort_names_perm|]; auto.
+  - eapply Permutation_in; [apply sort_names_perm|]; auto.
+Qed.
+
+(* ---------- dropping adjacent duplicates of a sorted list ---------- *)
+Lemma dedupe_In : forall l last m, In m (dedupe_adjacent last l) \/ m = last <-> In m l \/ m = last.
+Proof.
+  induction l; intros last m; simpl; [tauto|].
+  destruct (name_eqb a last) eqn:E.
+  - apply name_eqb_eq in E. subst a. rewrite IHl. intuition (subst; auto).
+  - simpl. specialize (IHl a m). intuition (subst; auto).
+Qed.
+
+Lemma dedupe_sorted : forall l last, StronglySorted lex_le (last :: l) ->
+  NoDup (dedupe_adjacent last l) /\ ~ In last (dedupe_adjacent last l).
+Proof.
+  induction l; intros last H; simpl.
+  - split; [constructor|auto].
+  - inversion H; subst. inversion H2; subst. inversion H3; subst.
+    destruct (name_eqb a last) eqn:E.
+    + apply IHl. constructor; auto.
+    + destruct (IHl a H2) as [ND NI]. split.
+      * constructor; auto.
+      * simpl. intros [Ha|Hin].
+        -- subst. rewrite name_eqb_refl in E. discriminate.
+        -- (* last <= a <= everything in l, so last in the rest forces a = last *)
+           assert (In last l).
+           { destruct (proj1 (dedupe_In l a last) (or_introl Hin)) as [?|?]; auto.
+             subst. rewrite name_eqb_refl in E. discriminate. }
+           rewrite Forall_forall in H5. specialize (H5 _ H0).
+           assert (a = last) by (apply lex_leb_antisym; auto).
+           subst. rewrite name_eqb_refl in E. discriminate.
+Qed.
+
+(* ---------- CommonPrefix ---------- *)
+Lemma cp2_prefix_l : forall a b, is_prefix (common_prefix2 a b) a = true.
+Proof.
+  induction a; destruct b; simpl; auto. destruct (N.eqb_spec a n); simpl; auto.
+  rewrite N.eqb_refl. simpl. auto.
+Qed.
+
+Lemma cp2_prefix_r : forall a b, is_prefix (common_prefix2 a b) b = true.
+Proof.
+  induction a; destruct b; simpl; auto. destruct (N.eqb_spec a n); simpl; auto.
+  subst. rewrite N.eqb_refl. simpl. auto.
+Qed.
+
+Lemma is_prefix_trans : forall a b c, is_prefix a b = true -> is_prefix b c = true -> is_prefix a c = true.
+Proof.
+  intros a b c H1 H2. apply is_prefix_iff in H1. apply is_prefix_iff in H2.
+  destruct H1 as [t ->]. destruct H2 as [u ->]. rewrite <- app_assoc. apply is_prefix_app.
+Qed.
+
+Lemma fold_cp2_prefix : forall r a,
+  is_prefix (fold_left common_prefix2 r a) a = true /\
+  forall n, In n r -> is_prefix (fold_left common_prefix2 r a) n = true.
+Proof.
+  induction r; intros; simpl.
+  - split; [|tauto]. apply is_prefix_iff. exists []. rewrite app_nil_r. auto.
+  - destruct (IHr (common_prefix2 a0 a)) as [H1 H2]. split.
+    + eapply is_prefix_trans; [exact H1|apply cp2_prefix_l].
+    + intros n [->|Hn]; auto. eapply is_prefix_trans; [exact H1|apply cp2_prefix_r].
+Qed.
+
+Lemma common_prefix_spec : forall l n, In n l -> is_prefix (common_prefix l) n = true.
+Proof.
+  intros [|a r] n H; [inversion H|]. unfold common_prefix.
+  destruct (fold_cp2_prefix r a) as [H1 H2]. destruct H as [->|H]; auto.
+Qed.
+
+(* ---------- key (bin) of a name ---------- *)
+Lemma is_prefix_length : forall p s, is_prefix p s = true -> (length p <= length s)%nat.
+Proof. intros p s H. apply is_prefix_iff in H. destruct H as [t ->]. rewrite app_length. lia. Qed.
+
+Lemma is_prefix_refl : forall p, is_prefix p p = true.
+Proof. intros. apply is_prefix_iff. exists []. rewrite app_nil_r; auto. Qed.
+
+Lemma key_long_len : forall cp n, (length cp < length n)%nat -> length (key cp n) = S (length cp).
+Proof.
+  intros. unfold key. destruct (Nat.ltb_spec (length cp) (length n)); [|lia].
+  rewrite firstn_length. lia.
+Qed.
+
+Lemma key_prefix_of_name : forall cp n, is_prefix cp n = true -> is_prefix (key cp n) n = true.
+Proof.
+  intros. unfold key. destruct (Nat.ltb_spec (length cp) (length n)); auto.
+  apply is_prefix_iff. exists (skipn (S (length cp)) n). symmetry. apply firstn_skipn.
+Qed.
+
+Lemma key_has_cp : forall cp n, is_prefix cp n = true -> is_prefix cp (key cp n) = true.
+Proof.
+  intros cp n H. unfold key. destruct (Nat.ltb_spec (length cp) (length n)); [|apply is_prefix_refl].
+  apply is_prefix_iff in H. destruct H as [t ->]. apply is_prefix_iff.
+  exists (firstn 1 t). rewrite firstn_app.
+  replace (S (length cp) - length cp)%nat with 1%nat by lia.
+  rewrite firstn_all2 by lia. reflexivity.
+Qed.
+
+Lemma key_short : forall cp n, is_prefix cp n = true -> ~ (length cp < length n)%nat -> n = cp.
+Proof.
+  intros cp n H L. apply is_prefix_iff in H. destruct H as [t ->].
+  rewrite app_length in L. destruct t; [apply app_nil_r|]. simpl in L. lia.
+Qed.
+
+Lemma key_of_extension : forall cp m i, (length cp < length m)%nat ->
+  is_prefix (key cp m) i = true -> key cp i = key cp m.
+Proof.
+  intros cp m i L H. pose proof (key_long_len cp m L) as KL.
+  apply is_prefix_iff in H. destruct H as [t ->].
+  unfold key at 1. rewrite app_length, KL.
+  destruct (Nat.ltb_spec (length cp) (S (length cp) + length t)); [|lia].
+  rewrite firstn_app, KL. replace (S (length cp) - S (length cp))%nat with 0%nat by lia.
+  simpl firstn at 2. rewrite app_nil_r. apply firstn_all2. lia.
+Qed.
+
+(* ---------- the grouping loop ---------- *)
+Definition group_all (cp : name) (D : list name) (acc : groups) : groups :=
+  fold_left (fun acc n => add_group (key cp n) n acc) D acc.
+
+Lemma divide_loop_eq : forall cp l last acc, (forall n, In n l -> n <> []) ->
+  divide_loop cp last l acc = Some (group_all cp (dedupe_adjacent last l) acc).
+Proof.
+  induction l as [|n l IH]; intros last acc H; simpl; auto.
+  destruct n as [|c n']; [exfalso; apply (H []); simpl; auto|].
+  destruct (name_eqb (c :: n') last).
+  - apply IH. intros; apply H; simpl; auto.
+  - rewrite IH by (intros; apply H; simpl; auto). reflexivity.
+Qed.
+
+Lemma add_group_keys : forall k n gs,
+  map fst (add_group k n gs) = if mem k (map fst gs) then map fst gs else map fst gs ++ [k].
+Proof.
+  induction gs as [|[k' ns] gs IH]; simpl; auto.
+  unfold mem in *. simpl. destruct (name_eqb k k') eqn:E; simpl; auto.
+  rewrite IH. destruct (existsb (name_eqb k) (map fst gs)); auto.
+Qed.
+
+Lemma NoDup_snoc : forall (l : list name) x, NoDup l -> ~ In x l -> NoDup (l ++ [x]).
+Proof.
+  induction l; intros x ND NI; simpl.
+  - constructor; auto.
+  - inversion ND; subst. constructor.
+    + intros Hin. apply in_app_or in Hin. destruct Hin as [?|[?|[]]]; auto. subst. apply NI; simpl; auto.
+    + apply IHl; auto. intros ?. apply NI; simpl; auto.
+Qed.
+
+Lemma add_group_NoDup : forall k n gs, NoDup (map fst gs) -> NoDup (map fst (add_group k n gs)).
+Proof.
+  intros. rewrite add_group_keys. destruct (mem k (map fst gs)) eqn:E; auto.
+  apply mem_false in E. apply NoDup_snoc; auto.
+Qed.
+
+Lemma add_group_perm : forall k n gs, Permutation (all_names (add_group k n gs)) (n :: all_names gs).
+Proof.
+  unfold all_names. induction gs as [|[k' ns] gs IH]; simpl; auto.
+  destruct (name_eqb k k'); simpl.
+  - rewrite <- app_assoc. simpl. apply Permutation_sym. apply Permutation_middle.
+  - eapply perm_trans; [apply Permutation_app_head; exact IH|].
+    apply Permutation_sym. apply Permutation_middle.
+Qed.
+
+Lemma add_group_keyinv : forall cp n gs,
+  (forall g m, In g gs -> In m (snd g) -> key cp m = fst g) ->
+  (forall g m, In g (add_group (key cp n) n gs) -> In m (snd g) -> key cp m = fst g).
+Proof.
+  induction gs as [|[k' ns] gs IH]; intros H g m Hg Hm; simpl in Hg.
+  - destruct Hg as [<-|[]]. simpl in *. destruct Hm as [<-|[]]. auto.
+  - destruct (name_eqb (key cp n) k') eqn:E.
+    + destruct Hg as [<-|Hg].
+      * simpl in *. apply in_app_or in Hm. destruct Hm as [Hm|[<-|[]]].
+        -- apply (H (k', ns) m); simpl; auto.
+        -- apply name_eqb_eq in E. auto.
+      * apply (H g m); simpl; auto.
+    + destruct Hg as [<-|Hg].
+      * apply (H (k', ns) m); simpl; auto.
+      * apply IH; auto. intros g' m' Hg' Hm'. apply (H g' m'); simpl; auto.
+Qed.
+
+Lemma group_all_props : forall cp D acc,
+  NoDup (map fst acc) ->
+  (forall g m, In g acc -> In m (snd g) -> key cp m = fst g) ->
+  NoDup (map fst (group_all cp D acc))
+  /\ (forall g m, In g (group_all cp D acc) -> In m (snd g) -> key cp m = fst g)
+  /\ Permutation (all_names (group_all cp D acc)) (D ++ all_names acc).
+Proof.
+  induction D as [|n D IH]; intros acc ND KI; simpl.
+  - repeat split; auto.
+  - destruct (IH (add_group (key cp n) n acc)) as [H1 [H2 H3]].
+    + apply add_group_NoDup; auto.
+    + apply add_group_keyinv; auto.
+    + repeat split; auto.
+      eapply perm_trans; [exact H3|].
+      eapply perm_trans; [apply Permutation_app_head; apply add_group_perm|].
+      apply Permutation_sym. apply Permutation_middle.
+Qed.
+
+(* what the tree lemma needs to know about a grouping *)
+Record good_groups (cp : name) (gs : groups) : Prop := {
+  gg_keys : NoDup (map fst gs);
+  gg_key : forall g m, In g gs -> In m (snd g) -> key cp m = fst g;
+  gg_nodup : NoDup (all_names gs);
+  gg_cp : forall m, In m (all_names gs) -> is_prefix cp m = true }.
+
+Lemma keys_unique : forall (gs : groups) p a b, NoDup (map fst gs) -> In (p, a) gs -> In (p, b) gs -> a = b.
+Proof.
+  induction gs as [|[q c] gs IH]; intros p a b ND Ha Hb; [inversion Ha|].
+  simpl in ND. inversion ND; subst.
+  destruct Ha as [Ha|Ha], Hb as [Hb|Hb].
+  - congruence.
+  - inversion Ha; subst. exfalso. apply H1. apply (in_map fst) in Hb. exact Hb.
+  - inversion Hb; subst. exfalso. apply H1. apply (in_map fst) in Ha. exact Ha.
+  - eapply IH; eauto.
+Qed.
+
+Lemma in_all_names : forall (gs : groups) g m, In g gs -> In m (snd g) -> In m (all_names gs).
+Proof. intros. unfold all_names. apply in_concat. exists (snd g). split; auto. apply in_map; auto. Qed.
+
+Lemma all_names_in : forall (gs : groups) m, In m (all_names gs) -> exists g, In g gs /\ In m (snd g).
+Proof.
+  intros gs m H. unfold all_names in H. apply in_concat in H. destruct H as [l [Hl Hm]].
+  apply in_map_iff in Hl. destruct Hl as [g [<- Hg]]. eauto.
+Qed.
+
+Lemma NoDup_app_l : forall (a b : list name), NoDup (a ++ b) -> NoDup a.
+Proof.
+  induction a; intros b H; [constructor|]. simpl in H. inversion H; subst. constructor.
+  - intros Hin. apply H2. apply in_or_app; auto.
+  - eapply IHa; eauto.
+Qed.
+
+Lemma NoDup_app_r : forall (a b : list name), NoDup (a ++ b) -> NoDup b.
+Proof. induction a; intros b H; auto. simpl in H. inversion H; subst. auto. Qed.
+
+Lemma NoDup_concat_in : forall (L : list (list name)) l, NoDup (concat L) -> In l L -> NoDup l.
+Proof.
+  induction L; intros l ND H; [inversion H|]. simpl in ND.
+  destruct H as [->|H].
+  - eapply NoDup_app_l; eauto.
+  - apply IHL; auto. eapply NoDup_app_r; eauto.
+Qed.
+
+Lemma good_capture : forall cp gs g i, good_groups cp gs ->
+  In g gs -> is_multi (snd g) = true -> is_prefix (fst g) i = true ->
+  In i (all_names gs) -> In i (snd g).
+Proof.
+  intros cp gs [p ns] i GG Hg Hm Hp Hi. cbn [fst snd] in *.
+  destruct ns as [|m1 [|m2 ns']]; try discriminate.
+  pose proof (gg_key _ _ GG (p, m1 :: m2 :: ns') m1 Hg (or_introl eq_refl)) as K1.
+  pose proof (gg_key _ _ GG (p, m1 :: m2 :: ns') m2 Hg (or_intror (or_introl eq_refl))) as K2.
+  cbn [fst] in K1, K2.
+  assert (P1 : is_prefix cp m1 = true) by (apply (gg_cp _ _ GG); eapply in_all_names; eauto; simpl; auto).
+  assert (P2 : is_prefix cp m2 = true) by (apply (gg_cp _ _ GG); eapply in_all_names; eauto; simpl; auto).
+  destruct (Nat.lt_ge_cases (length cp) (length m1)) as [L|L].
+  - (* p = cp + one byte: i falls in the same bin *)
+    assert (Ki : key cp i = p) by (rewrite <- K1; apply key_of_extension; auto; rewrite K1; auto).
+    destruct (all_names_in _ _ Hi) as [[p' ns2] [Hg2 Hi2]]. cbn [snd] in Hi2.
+    pose proof (gg_key _ _ GG _ _ Hg2 Hi2) as K3. cbn [fst] in K3.
+    rewrite Ki in K3. subst p'.
+    rewrite (keys_unique gs p _ _ (gg_keys _ _ GG) Hg Hg2). exact Hi2.
+  - (* p = cp: both members equal cp, impossible without duplicates *)
+    exfalso.
+    assert (m1 = cp) by (apply key_short; auto; lia).
+    assert (p = cp) by (rewrite <- K1; unfold key; destruct (Nat.ltb_spec (length cp) (length m1)); auto; lia).
+    assert (m2 = cp).
+    { apply key_short; auto. intros L2. pose proof (key_long_len cp m2 L2). rewrite K2, H0 in H1. lia. }
+    subst m1 m2.
+    assert (ND : NoDup (cp :: cp :: ns')).
+    { apply (NoDup_concat_in (map snd gs)); [exact (gg_nodup _ _ GG)|].
+      apply (in_map snd) in Hg. exact Hg. }
+    inversion ND as [|x l NI ND']; subst. apply NI. simpl; auto.
+Qed.
+
+(* ---------- sortAndDivideEndpointNamesToPrefixTree yields a good grouping ---------- *)
+Lemma divide_good : forall names, (forall n, In n names -> n <> []) ->
+  exists cp gs, divide names = Some (cp, gs) /\ good_groups cp gs /\
+                (forall n, In n (all_names gs) <-> In n names).
+Proof.
+  intros names NE. unfold divide.
+  set (sorted := sort_names names). set (cp := common_prefix sorted).
+  assert (NEs : forall n, In n sorted -> n <> []) by (intros n H; apply NE; apply sort_names_In; auto).
+  rewrite divide_loop_eq by auto.
+  set (D := dedupe_adjacent [] sorted).
+  exists cp, (group_all cp D []). split; auto.
+  assert (SS : StronglySorted lex_le ([] :: sorted)).
+  { constructor; [apply sort_names_ss|]. apply Forall_forall. intros; reflexivity. }
+  destruct (dedupe_sorted _ _ SS) as [ND NI]. fold D in ND, NI.
+  assert (DIn : forall m, In m D <-> In m names).
+  { intros m. pose proof (dedupe_In sorted [] m) as HD. fold D in HD. split; intros H.
+    - destruct (proj1 HD (or_introl H)) as [H1|H1]; [apply sort_names_In; auto|]. subst. contradiction.
+    - assert (Hs : In m sorted) by (apply sort_names_In; auto).
+      destruct (proj2 HD (or_introl Hs)) as [H1|H1]; auto. subst. exfalso. apply (NEs []); auto. }
+  destruct (group_all_props cp D []) as [H1 [H2 H3]]; [constructor|intros ? ? []|].
+  unfold all_names at 2 in H3. simpl in H3. rewrite app_nil_r in H3.
+  split; [constructor; auto|].
+  - eapply Permutation_NoDup; [apply Permutation_sym; exact H3|]; auto.
+  - intros m Hm. apply common_prefix_spec. apply sort_names_In. apply DIn.
+    eapply Permutation_in; [exact H3|]; auto.
+  - intros n. rewrite <- DIn. split; intros H.
+    + eapply Permutation_in; [exact H3|]; auto.
+    + eapply Permutation_in; [apply Permutation_sym; exact H3|]; auto.
+Qed.
+
+(* ---------- locating chains ---------- *)
+Definition cid_kind (c : cid) : epkind :=
+  match c with CRoot k | CChild k _ | CEp k _ => k end.
+
+Lemma epkind_eqb_eq : forall a b, epkind_eqb a b = true <-> a = b.
+Proof. intros a b. destruct a, b; unfold epkind_eqb; simpl; split; intros H; try discriminate; auto. Qed.
+
+Lemma epkind_eqb_refl : forall a, epkind_eqb a a = true.
+Proof. intros. apply epkind_eqb_eq; auto. Qed.
+
+Lemma cid_eqb_kind : forall a b, cid_eqb a b = true -> cid_kind a = cid_kind b.
+Proof.
+  intros [k|k s|k n] [k'|k' s'|k' n']; simpl; intros H; try discriminate;
+    try (apply andb_true_iff in H; destruct H as [H _]); apply epkind_eqb_eq; auto.
+Qed.
+
+Lemma find_chain_skip : forall c pre rest,
+  (forall ch, In ch pre -> cid_kind (fst ch) <> cid_kind c) ->
+  find_chain c (pre ++ rest) = find_chain c rest.
+Proof.
+  induction pre as [|[c' r] pre IH]; intros rest H; simpl; auto.
+  destruct (cid_eqb c c') eqn:E.
+  - exfalso. apply (H (c', r)); simpl; auto. symmetry. apply cid_eqb_kind; auto.
+  - apply IH. intros ch Hc. apply H. simpl; auto.
+Qed.
+
+Lemma child_chains_kind : forall k cp gs E ch, In ch (child_chains k cp gs E) ->
+  exists s, fst ch = CChild k s.
+Proof.
+  intros k cp gs E ch H. unfold child_chains in H. apply in_flat_map in H.
+  destruct H as [g [_ H]]. destruct (is_multi (snd g)); [|inversion H].
+  destruct H as [<-|[]]. unfold child_id. simpl. eauto.
+Qed.
+
+Lemma find_root_in_tree : forall wc k cp gs E post,
+  find_chain (CRoot k) (build_tree wc k cp gs E ++ post) = Some (flat_map (root_rule wc k cp) gs ++ E).
+Proof.
+  intros. unfold build_tree. rewrite <- app_assoc.
+  assert (forall l rest, (forall ch, In ch l -> exists s, fst ch = CChild k s) ->
+            find_chain (CRoot k) (l ++ rest) = find_chain (CRoot k) rest) as SK.
+  { induction l as [|[c r] l IH]; intros rest H; simpl; auto.
+    destruct (H (c, r) (or_introl eq_refl)) as [s Hs]. simpl in Hs. subst c. simpl.
+    apply IH. intros; apply H; simpl; auto. }
+  rewrite SK by (apply child_chains_kind). simpl. rewrite epkind_eqb_refl. reflexivity.
+Qed.
+
+Lemma skipn_cp_inj : forall cp p q, is_prefix cp p = true -> is_prefix cp q = true ->
+  skipn (length cp) p = skipn (length cp) q -> p = q.
+Proof.
+  intros cp p q Hp Hq H. apply is_prefix_iff in Hp. apply is_prefix_iff in Hq.
+  destruct Hp as [t ->]. destruct Hq as [u ->].
+  rewrite !skipn_app, !skipn_all, !Nat.sub_diag in H. simpl in H. subst; auto.
+Qed.
+
+Lemma find_child : forall k cp E gs p ns rest,
+  NoDup (map fst gs) ->
+  (forall g, In g gs -> is_multi (snd g) = true -> is_prefix cp (fst g) = true) ->
+  In (p, ns) gs -> is_multi ns = true ->
+  find_chain (child_id k cp p) (child_chains k cp gs E ++ rest) = Some (map (ep_rule k) ns ++ E).
+Proof.
+  induction gs as [|[p0 ns0] gs IH]; intros p ns rest ND HP Hin Hm; [inversion Hin|].
+  simpl in ND. inversion ND as [|x l NI ND']; subst.
+  unfold child_chains. cbn [flat_map snd fst].
+  destruct Hin as [Heq|Hin].
+  - inversion Heq; subst. rewrite Hm. simpl. unfold child_id. simpl.
+    rewrite epkind_eqb_refl, name_eqb_refl. reflexivity.
+  - destruct (is_multi ns0) eqn:Em0.
+    + simpl. unfold child_id at 1 2. simpl. rewrite epkind_eqb_refl. simpl.
+      destruct (name_eqb (skipn (length cp) p) (skipn (length cp) p0)) eqn:Es.
+      * exfalso. apply name_eqb_eq in Es. apply skipn_cp_inj in Es.
+        -- subst p0. apply NI. apply (in_map fst) in Hin. exact Hin.
+        -- apply (HP (p, ns)); simpl; auto.
+        -- apply (HP (p0, ns0)); simpl; auto.
+      * apply IH; auto. intros g Hg. apply HP; simpl; auto.
+    + simpl. apply IH; auto. intros g Hg. apply HP; simpl; auto.
+Qed.
+
+Lemma chains_size_app : forall a b, chains_size (a ++ b) = (chains_size a + chains_size b)%nat.
+Proof. induction a as [|[c r] a IH]; intros; simpl; auto. rewrite IH. lia. Qed.
+
+Lemma chains_size_in : forall l c r, In (c, r) l -> (S (length r) <= chains_size l)%nat.
+Proof.
+  induction l as [|[c' r'] l IH]; intros c r H; [inversion H|]. simpl.
+  destruct H as [H|H]; [inversion H; subst; lia|]. specialize (IH _ _ H). lia.
+Qed.
+
+Lemma find_chain_in : forall c l r, find_chain c l = Some r -> exists c', In (c', r) l.
+Proof.
+  induction l as [|[c' r'] l IH]; intros r H; simpl in H; [discriminate|].
+  destruct (cid_eqb c c'); [inversion H; subst; eexists; simpl; eauto|].
+  destruct (IH _ H) as [c2 H2]. exists c2. simpl; auto.
+Qed.
+
+(* ---------- evaluation of a rendered prefix tree inside a larger rule set ---------- *)
+Lemma tree_eval : forall wc rs pk k cp gs E rE pre post,
+  rs_chains rs = pre ++ build_tree wc k cp gs E ++ post ->
+  (forall ch, In ch pre -> cid_kind (fst ch) <> k) ->
+  good_groups cp gs ->
+  Forall (fun n => name_plain wc n = true) (all_names gs) ->
+  (forall f, (length E < f)%nat -> run f wc rs pk E [] = rE) ->
+  eval wc rs pk (CRoot k) =
+  if mem (pkt_if (kind_dir k) pk) (all_names gs) then REndpoint k (pkt_if (kind_dir k) pk) else rE.
+Proof.
+  intros wc rs pk k cp gs E rE pre post Hrs Hpre GG HP HE.
+  unfold eval.
+  assert (Hroot : find_chain (CRoot k) (rs_chains rs) = Some (flat_map (root_rule wc k cp) gs ++ E)).
+  { rewrite Hrs. rewrite find_chain_skip by (intros ch Hc; simpl; apply Hpre; auto).
+    apply find_root_in_tree. }
+  rewrite Hroot.
+  assert (Hmulti_cp : forall g, In g gs -> is_multi (snd g) = true -> is_prefix cp (fst g) = true).
+  { intros [p ns] Hg Hm. cbn [fst snd] in *. destruct ns as [|m ns]; [discriminate|].
+    pose proof (gg_key _ _ GG (p, m :: ns) m Hg (or_introl eq_refl)) as K. cbn [fst] in K. rewrite <- K.
+    apply key_has_cp. apply (gg_cp _ _ GG). eapply in_all_names; eauto. simpl; auto. }
+  assert (Hchild : forall g, In g gs -> is_multi (snd g) = true ->
+            find_chain (child_id k cp (fst g)) (rs_chains rs) = Some (map (ep_rule k) (snd g) ++ E)).
+  { intros [p ns] Hg Hm. cbn [fst snd] in *. rewrite Hrs.
+    rewrite find_chain_skip by (intros ch Hc; simpl; apply Hpre; auto).
+    unfold build_tree. rewrite <- app_assoc.
+    apply find_child; auto. exact (gg_keys _ _ GG). }
+  apply (root_scan wc rs pk k cp E rE (S (chains_size (rs_chains rs))) HE); auto.
+  - intros g Hg Hm. split; [apply Hchild; auto|].
+    destruct (find_chain_in _ _ _ (Hchild g Hg Hm)) as [c' Hc'].
+    apply chains_size_in in Hc'. rewrite app_length, map_length in Hc'. lia.
+  - intros g n Hg Hn. rewrite <- (gg_key _ _ GG g n Hg Hn).
+    apply key_prefix_of_name. apply (gg_cp _ _ GG). eapply in_all_names; eauto.
+  - intros g Hg Hm Hpi Hin. eapply good_capture; eauto.
+  - destruct (find_chain_in _ _ _ Hroot) as [c' Hc'].
+    apply chains_size_in in Hc'. rewrite app_length in Hc'. lia.
+Qed.
+
+(* ---------- end rules ---------- *)
+Lemma end_deny : forall c wc rs pk f, (1 < f)%nat ->
+  run f wc rs pk [Rule MAny (deny_action c)] [] = deny_result (cf_reject c).
+Proof.
+  intros. destruct f; [lia|]. unfold deny_action, deny_result.
+  destruct (cf_reject c); reflexivity.
+Qed.
+
+Lemma end_default : forall wc rs pk k dflt f, (length (default_goto k dflt) < f)%nat ->
+  run f wc rs pk (default_goto k dflt) [] = match dflt with [] => RReturn | _ => REndpoint k dflt end.
+Proof.
+  intros. destruct f; [lia|]. destruct dflt; reflexivity.
+Qed.
+
+Lemma scan_returns : forall wc rs pk k dflt ps f, (S (length ps) < f)%nat ->
+  run f wc rs pk (map (fun p => Rule (MIface DOut (p ++ [wc])) AReturn) ps ++ [Rule MAny (AGoto (CEp k dflt))]) [] =
+  if existsb (fun p => is_prefix p (p_out pk)) ps then RReturn else REndpoint k dflt.
+Proof.
+  induction ps as [|p ps IH]; intros f Hf.
+  - destruct f; [simpl in Hf; lia|]. reflexivity.
+  - simpl in Hf. destruct f as [|[|f]]; try lia. cbn [map app existsb].
+    destruct (is_prefix p (p_out pk)) eqn:Ep.
+    + rewrite run_return by (rewrite match_iface, pat_wild; exact Ep). reflexivity.
+    + rewrite run_nomatch by (rewrite match_iface, pat_wild; exact Ep). apply IH. lia.
+Qed.
+
+Lemma end_host_to : forall c rs pk dflt aof f, (length (host_to_end c dflt aof) < f)%nat ->
+  run f (wildcard c) rs pk (host_to_end c dflt aof) [] =
+  match dflt with
+  | [] => RReturn
+  | _ => if negb aof && existsb (fun p => is_prefix p (p_out pk)) (cf_wlpfx c) then RReturn
+         else REndpoint KHostTo dflt
+  end.
+Proof.
+  intros c rs pk dflt aof f Hf. unfold host_to_end in *. destruct dflt as [|d0 dflt].
+  - destruct f; [simpl in Hf; lia|]. reflexivity.
+  - destruct aof; cbn [negb andb].
+    + destruct f; [simpl in Hf; lia|]. reflexivity.
+    + apply scan_returns. rewrite app_length, map_length in Hf. simpl in Hf. lia.
+Qed.
+
+(* ---------- putting it together ---------- *)
+Lemma mem_ext : forall i a b, (forall n, In n a <-> In n b) -> mem i a = mem i b.
+Proof.
+  intros i a b H. destruct (mem i b) eqn:E.
+  - apply mem_In. apply H. apply mem_In. auto.
+  - apply mem_false. intros Hin. apply H in Hin. apply mem_In in Hin. congruence.
+Qed.
+
+Lemma names_ok_forall : forall wc names, names_ok wc names = true ->
+  Forall (fun n => name_plain wc n = true) names.
+Proof. intros. apply Forall_forall. unfold names_ok in H. rewrite forallb_forall in H. auto. Qed.
+
+Lemma names_ok_divide : forall wc names, names_ok wc names = true ->
+  exists cp gs, divide names = Some (cp, gs) /\ good_groups cp gs /\
+    Forall (fun n => name_plain wc n = true) (all_names gs) /\
+    (forall i, mem i (all_names gs) = mem i names).
+Proof.
+  intros wc names H. pose proof (names_ok_forall _ _ H) as HF. rewrite Forall_forall in HF.
+  destruct (divide_good names) as [cp [gs [H1 [H2 H3]]]].
+  { intros n Hn. eapply name_plain_nonempty. apply HF; eauto. }
+  exists cp, gs. split; [auto|split; [auto|split]].
+  - apply Forall_forall. intros n Hn. apply HF. apply H3; auto.
+  - intros i. apply mem_ext; auto.
+Qed.
+
+Lemma build_tree_kinds : forall wc k cp gs E ch, In ch (build_tree wc k cp gs E) -> cid_kind (fst ch) = k.
+Proof.
+  intros wc k cp gs E ch H. unfold build_tree in H. apply in_app_or in H. destruct H as [H|[<-|[]]]; auto.
+  apply child_chains_kind in H. destruct H as [s ->]. reflexivity.
+Qed.
+
+(* verdict-map variant *)
+Lemma vmap_lookup_mapping : forall k i l,
+  vmap_lookup i (map (fun n => (n, AGoto (CEp k n))) l) = if mem i l then Some (AGoto (CEp k i)) else None.
+Proof.
+  induction l; simpl; auto. unfold mem in *. simpl. rewrite (name_eqb_sym i a).
+  destruct (name_eqb a i) eqn:E; simpl; auto. apply name_eqb_eq in E. subst; auto.
+Qed.
+
+Lemma map_keys_mem : forall i names, mem i (map_keys names) = mem i names.
+Proof.
+  intros. apply mem_ext. intros n. unfold map_keys. rewrite <- (sort_names_In n names).
+  destruct (sort_names names) as [|a l]; [tauto|].
+  pose proof (dedupe_In l a n). simpl. intuition (subst; auto).
+Qed.
+
+Lemma vmap_eval : forall c wc rs pk k names pre post,
+  rs_chains rs = pre ++ build_vmap k [Rule MAny (deny_action c)] ++ post ->
+  (forall ch, In ch pre -> cid_kind (fst ch) <> k) ->
+  find_map k (rs_maps rs) = Some (dispatch_mapping k names) ->
+  eval wc rs pk (CRoot k) =
+  if mem (pkt_if (kind_dir k) pk) names then REndpoint k (pkt_if (kind_dir k) pk) else deny_result (cf_reject c).
+Proof.
+  intros c wc rs pk k names pre post Hrs Hpre Hmap. unfold eval.
+  rewrite Hrs at 1. rewrite find_chain_skip by (intros ch Hc; simpl; apply Hpre; auto).
+  unfold build_vmap. simpl find_chain. rewrite epkind_eqb_refl.
+  replace (2 * chains_size (rs_chains rs) + 2)%nat with (S (S (2 * chains_size (rs_chains rs)))) by lia.
+  remember (2 * chains_size (rs_chains rs))%nat as g.
+  cbn [run]. rewrite Hmap. unfold dispatch_mapping. rewrite vmap_lookup_mapping, map_keys_mem.
+  destruct (mem (pkt_if (kind_dir k) pk) names); [reflexivity|].
+  unfold deny_action, deny_result. destruct (cf_reject c); reflexivity.
+Qed.
+
+Lemma wildcard_sem : forall c, wildcard c = sem_wildcard (cf_nft c).
+Proof. reflexivity. Qed.
+
+Lemma build_vmap_kinds : forall k E ch, In ch (build_vmap k E) -> cid_kind (fst ch) = k.
+Proof. intros k E ch [<-|[]]. reflexivity. Qed.
+
+Ltac other_kind :=
+  let ch := fresh "ch" in let H := fresh "H" in
+  intros ch H; rewrite ?in_app_iff in H;
+  repeat match goal with H' : _ \/ _ |- _ => destruct H' as [H'|H'] end;
+  first [ apply build_tree_kinds in H; rewrite H; discriminate
+        | apply build_vmap_kinds in H; rewrite H; discriminate
+        | match goal with H' : _ = ch |- _ => rewrite <- H'; simpl; discriminate end
+        | contradiction ].
+
+(* Workload dispatch, both renderers: the verdict is exactly what the specification says. *)
+Theorem workload_char : forall c names, names_ok (sem_wildcard (cf_nft c)) names = true ->
+  exists rs, workload_dispatch c names = Some rs /\
+    forall pk k, is_wl_kind k = true ->
+      eval (sem_wildcard (cf_nft c)) rs pk (CRoot k) =
+      spec_workload (cf_reject c) k names (pkt_if (kind_dir k) pk).
+Proof.
+  intros c names OK. rewrite <- wildcard_sem in *.
+  destruct (names_ok_divide _ _ OK) as [cp [gs [HD [GG [HP HM]]]]].
+  unfold workload_dispatch, iface_dispatch. rewrite HD. unfold build_single.
+  destruct (cf_nft c) eqn:Enft; cbn [andb is_wl_kind].
+  - eexists. split; [reflexivity|]. intros pk k Hk. unfold spec_workload.
+    destruct k; try discriminate.
+    + eapply (vmap_eval c _ _ pk KWlFrom names [] _); simpl; auto; try reflexivity; try other_kind.
+    + eapply (vmap_eval c _ _ pk KWlTo names (build_vmap KWlFrom _) []); simpl; auto; try reflexivity; try other_kind.
+  - eexists. split; [reflexivity|]. intros pk k Hk. unfold spec_workload.
+    destruct k; try discriminate.
+    + rewrite <- HM.
+      eapply (tree_eval _ _ pk KWlFrom cp gs _ _ [] _); simpl; auto; try reflexivity; try other_kind.
+      intros. eapply end_deny; auto.
+    + rewrite <- HM.
+      eapply (tree_eval _ _ pk KWlTo cp gs _ _ (build_tree _ KWlFrom cp gs _) []); simpl; auto.
+      * rewrite app_nil_r. reflexivity.
+      * other_kind.
+      * intros. eapply end_deny; auto.
+Qed.
+
+Lemma build_single_host : forall c k cp gs E, is_wl_kind k = false ->
+  build_single c k cp gs E = build_tree (wildcard c) k cp gs E.
+Proof. intros. unfold build_single. rewrite H, andb_false_r. reflexivity. Qed.
+
+Lemma spec_host_plain : forall k names dflt wl i,
+  spec_host k names dflt false wl i =
+  if mem i names then REndpoint k i else match dflt with [] => RReturn | _ => REndpoint k dflt end.
+Proof. intros. unfold spec_host. destruct dflt; reflexivity. Qed.
+
+Ltac chains_eq := simpl; rewrite ?app_nil_r, <- ?app_assoc; reflexivity.
+
+(* Host dispatch (all three entry points, both renderers). *)
+Theorem host_char : forall c names dflt m, names_ok (sem_wildcard (cf_nft c)) names = true ->
+  exists rs, host_dispatch c names dflt m = Some rs /\
+    forall pk k, In k (roots (CHost dflt m)) ->
+      eval (sem_wildcard (cf_nft c)) rs pk (CRoot k) =
+      expected c (CHost dflt m) names k (pkt_if (kind_dir k) pk).
+Proof.
+  intros c names dflt m OK. rewrite <- wildcard_sem in *.
+  destruct (names_ok_divide _ _ OK) as [cp [gs [HD [GG [HP HM]]]]].
+  unfold host_dispatch, host_dispatch_chains, iface_dispatch, opt_app. rewrite HD.
+  rewrite !build_single_host by reflexivity.
+  set (TF := build_tree (wildcard c) KHostFrom cp gs (default_goto KHostFrom dflt)).
+  set (TT := build_tree (wildcard c) KHostTo cp gs (host_to_end c dflt (mode_aof m))).
+  set (TFF := build_tree (wildcard c) KHostFromFwd cp gs (default_goto KHostFromFwd dflt)).
+  set (TTF := build_tree (wildcard c) KHostToFwd cp gs (default_goto KHostToFwd dflt)).
+  assert (AF : forall rs pk pre post, rs_chains rs = pre ++ TF ++ post ->
+             (forall ch, In ch pre -> cid_kind (fst ch) <> KHostFrom) ->
+             eval (wildcard c) rs pk (CRoot KHostFrom) =
+             spec_host KHostFrom names dflt false (cf_wlpfx c) (p_in pk)).
+  { intros. rewrite spec_host_plain, <- HM.
+    eapply (tree_eval _ rs pk KHostFrom cp gs _ _ pre post); eauto. intros; apply end_default; auto. }
+  assert (AFF : forall rs pk pre post, rs_chains rs = pre ++ TFF ++ post ->
+             (forall ch, In ch pre -> cid_kind (fst ch) <> KHostFromFwd) ->
+             eval (wildcard c) rs pk (CRoot KHostFromFwd) =
+             spec_host KHostFromFwd names dflt false (cf_wlpfx c) (p_in pk)).
+  { intros. rewrite spec_host_plain, <- HM.
+    eapply (tree_eval _ rs pk KHostFromFwd cp gs _ _ pre post); eauto. intros; apply end_default; auto. }
+  assert (ATF : forall rs pk pre post, rs_chains rs = pre ++ TTF ++ post ->
+             (forall ch, In ch pre -> cid_kind (fst ch) <> KHostToFwd) ->
+             eval (wildcard c) rs pk (CRoot KHostToFwd) =
+             spec_host KHostToFwd names dflt false (cf_wlpfx c) (p_out pk)).
+  { intros. rewrite spec_host_plain, <- HM.
+    eapply (tree_eval _ rs pk KHostToFwd cp gs _ _ pre post); eauto. intros; apply end_default; auto. }
+  assert (AT : forall rs pk pre post, rs_chains rs = pre ++ TT ++ post ->
+             (forall ch, In ch pre -> cid_kind (fst ch) <> KHostTo) ->
+             eval (wildcard c) rs pk (CRoot KHostTo) =
+             spec_host KHostTo names dflt (negb (mode_aof m)) (cf_wlpfx c) (p_out pk)).
+  { intros. unfold spec_host. rewrite <- HM.
+    eapply (tree_eval _ rs pk KHostTo cp gs _ _ pre post); eauto. intros; apply end_host_to; auto. }
+  destruct m as [[|]| |]; cbn [mode_aof] in *.
+  - (* HostDispatchChains, applyOnForward *)
+    eexists. split; [reflexivity|]. intros pk k Hk. cbn [roots In] in Hk.
+    destruct Hk as [<-|[<-|[<-|[<-|[]]]]]; cbn [expected kind_dir pkt_if mode_aof].
+    + apply (AF _ pk [] (TT ++ TFF ++ TTF)); [chains_eq|other_kind].
+    + apply (AT _ pk TF (TFF ++ TTF)); [chains_eq|subst TF; other_kind].
+    + apply (AFF _ pk (TF ++ TT) TTF); [chains_eq|subst TF TT; other_kind].
+    + apply (ATF _ pk (TF ++ TT ++ TFF) []); [chains_eq|subst TF TT TFF; other_kind].
+  - (* HostDispatchChains, not on forward *)
+    eexists. split; [reflexivity|]. intros pk k Hk. cbn [roots In] in Hk.
+    destruct Hk as [<-|[<-|[]]]; cbn [expected kind_dir pkt_if mode_aof].
+    + apply (AF _ pk [] TT); [chains_eq|other_kind].
+    + apply (AT _ pk TF []); [chains_eq|subst TF; other_kind].
+  - (* FromHostDispatchChains *)
+    eexists. split; [reflexivity|]. intros pk k Hk. cbn [roots In] in Hk.
+    destruct Hk as [<-|[]]; cbn [expected kind_dir pkt_if mode_aof].
+    apply (AF _ pk [] []); [chains_eq|other_kind].
+  - (* ToHostDispatchChains *)
+    eexists. split; [reflexivity|]. intros pk k Hk. cbn [roots In] in Hk.
+    destruct Hk as [<-|[]]; cbn [expected kind_dir pkt_if mode_aof].
+    apply (AT _ pk [] []); [chains_eq|other_kind].
+Qed.
+
+(* ---------- the statements used in Props.v ---------- *)
+Lemma deny_not_endpoint : forall b k n, deny_result b <> REndpoint k n.
+Proof. intros [|]; discriminate. Qed.
+
+Lemma known_iface_own_chain : forall c names rs, names_ok (sem_wildcard (cf_nft c)) names = true ->
+  workload_dispatch c names = Some rs ->
+  forall pk k, is_wl_kind k = true -> forall k' n,
+    eval (sem_wildcard (cf_nft c)) rs pk (CRoot k) = REndpoint k' n <->
+    (k' = k /\ n = pkt_if (kind_dir k) pk /\ In n names).
+Proof.
+  intros c names rs OK Hrs pk k Hk k' n.
+  destruct (workload_char c names OK) as [rs' [Hrs' H]]. rewrite Hrs in Hrs'. inversion Hrs'; subst rs'.
+  rewrite (H pk k Hk). unfold spec_workload.
+  destruct (mem (pkt_if (kind_dir k) pk) names) eqn:E.
+  - apply mem_In in E. split.
+    + intros Heq. inversion Heq; subst. auto.
+    + intros [-> [-> _]]. reflexivity.
+  - apply mem_false in E. split.
+    + intros Heq. exfalso. eapply deny_not_endpoint; eauto.
+    + intros [_ [-> Hin]]. contradiction.
+Qed.
+
+Lemma unknown_dropped : forall c names rs, names_ok (sem_wildcard (cf_nft c)) names = true ->
+  workload_dispatch c names = Some rs ->
+  forall pk k, is_wl_kind k = true -> ~ In (pkt_if (kind_dir k) pk) names ->
+    eval (sem_wildcard (cf_nft c)) rs pk (CRoot k) = deny_result (cf_reject c).
+Proof.
+  intros c names rs OK Hrs pk k Hk Hn.
+  destruct (workload_char c names OK) as [rs' [Hrs' H]]. rewrite Hrs in Hrs'. inversion Hrs'; subst rs'.
+  rewrite (H pk k Hk). unfold spec_workload. apply mem_false in Hn. rewrite Hn. reflexivity.
+Qed.
+
+Lemma host_dispatch_spec : forall c names dflt m rs, names_ok (sem_wildcard (cf_nft c)) names = true ->
+  host_dispatch c names dflt m = Some rs ->
+  forall pk k, In k (roots (CHost dflt m)) ->
+    eval (sem_wildcard (cf_nft c)) rs pk (CRoot k) =
+    spec_host k names dflt (match k with KHostTo => negb (mode_aof m) | _ => false end)
+              (cf_wlpfx c) (pkt_if (kind_dir k) pk).
+Proof.
+  intros c names dflt m rs OK Hrs pk k Hk.
+  destruct (host_char c names dflt m OK) as [rs' [Hrs' H]]. rewrite Hrs in Hrs'. inversion Hrs'; subst rs'.
+  apply (H pk k Hk).
+Qed.
+
+Lemma host_default_only_when_configured : forall c names dflt m rs,
+  names_ok (sem_wildcard (cf_nft c)) names = true ->
+  host_dispatch c names dflt m = Some rs ->
+  forall pk k, In k (roots (CHost dflt m)) -> forall k' n,
+    eval (sem_wildcard (cf_nft c)) rs pk (CRoot k) = REndpoint k' n ->
+    k' = k /\ ((n = pkt_if (kind_dir k) pk /\ In n names)
+               \/ (n = dflt /\ dflt <> [] /\ ~ In (pkt_if (kind_dir k) pk) names)).
+Proof.
+  intros c names dflt m rs OK Hrs pk k Hk k' n.
+  rewrite (host_dispatch_spec c names dflt m rs OK Hrs pk k Hk). unfold spec_host.
+  destruct (mem (pkt_if (kind_dir k) pk) names) eqn:E.
+  - apply mem_In in E. intros Heq. inversion Heq; subst. auto.
+  - apply mem_false in E. destruct dflt as [|d0 dflt]; [discriminate|].
+    destruct (_ && _); [discriminate|]. intros Heq. inversion Heq; subst.
+    split; auto. right. repeat split; auto. discriminate.
+Qed.
+
+Lemma host_no_default_returns : forall c names m rs,
+  names_ok (sem_wildcard (cf_nft c)) names = true ->
+  host_dispatch c names [] m = Some rs ->
+  forall pk k, In k (roots (CHost [] m)) -> ~ In (pkt_if (kind_dir k) pk) names ->
+    eval (sem_wildcard (cf_nft c)) rs pk (CRoot k) = RReturn.
+Proof.
+  intros c names m rs OK Hrs pk k Hk Hn.
+  rewrite (host_dispatch_spec c names [] m rs OK Hrs pk k Hk). unfold spec_host.
+  apply mem_false in Hn. rewrite Hn. reflexivity.
+Qed.
+
+Lemma vmap_same : forall cn ci names rsn rsi,
+  cf_nft cn = true -> cf_nft ci = false -> cf_reject cn = cf_reject ci ->
+  names_ok 42 names = true -> names_ok 43 names = true ->
+  workload_dispatch cn names = Some rsn -> workload_dispatch ci names = Some rsi ->
+  forall pk k, is_wl_kind k = true ->
+    eval 42 rsn pk (CRoot k) = eval 43 rsi pk (CRoot k).
+Proof.
+  intros cn ci names rsn rsi Hn Hi Hr OKn OKi Hrn Hri pk k Hk.
+  assert (OKn' : names_ok (sem_wildcard (cf_nft cn)) names = true) by (rewrite Hn; exact OKn).
+  assert (OKi' : names_ok (sem_wildcard (cf_nft ci)) names = true) by (rewrite Hi; exact OKi).
+  destruct (workload_char cn names OKn') as [r1 [E1 H1]].
+  destruct (workload_char ci names OKi') as [r2 [E2 H2]].
+  rewrite Hrn in E1. rewrite Hri in E2. inversion E1; inversion E2; subst r1 r2.
+  specialize (H1 pk k Hk). specialize (H2 pk k Hk). rewrite Hn in H1. rewrite Hi in H2.
+  simpl sem_wildcard in *. rewrite H1, H2, Hr. reflexivity.
+Qed.
+
+(* the oracle of Spec.v accepts every run of the model *)
+Lemma result_eqb_refl : forall r, result_eqb r r = true.
+Proof. intros [| | | |k n| |]; simpl; auto. rewrite epkind_eqb_refl, name_eqb_refl. reflexivity. Qed.
+
+Lemma pkt_if_mk : forall k p d, pkt_if (kind_dir k) (mk_packet k p d) = p.
+Proof. intros. unfold mk_packet. destruct (kind_dir k); reflexivity. Qed.
+
+Lemma divide_none_empty : forall names, divide names = None -> existsb is_empty names = true.
+Proof.
+  intros names H. destruct (existsb is_empty names) eqn:E; auto. exfalso.
+  destruct (divide_good names) as [cp [gs [H1 _]]]; [|congruence].
+  intros n Hn ->. assert (existsb is_empty names = true); [|congruence].
+  apply existsb_exists. exists []. auto.
+Qed.
+
+Lemma model_meets_spec : forall c, c_impl c = model_of c -> ok_case c = true.
+Proof.
+  intros [c ck names impl probes] H. unfold ok_case, model_of in *. cbn [c_impl c_kind c_cfg c_names c_probes] in *.
+  subst impl. destruct ck as [|dflt m].
+  - destruct (workload_dispatch c names) as [rs|] eqn:E.
+    + destruct (names_ok _ names) eqn:OK; auto.
+      destruct (workload_char c names OK) as [rs' [E' HC]]. rewrite E in E'. inversion E'; subst rs'.
+      unfold ok_ruleset. apply forallb_forall. intros k Hk. apply forallb_forall. intros pd _.
+      rewrite HC by (destruct Hk as [<-|[<-|[]]]; reflexivity).
+      rewrite pkt_if_mk. apply result_eqb_refl.
+    + unfold workload_dispatch, iface_dispatch in E. destruct (divide names) as [[cp gs]|] eqn:D; [discriminate|].
+      apply divide_none_empty; auto.
+  - destruct (host_dispatch c names dflt m) as [rs|] eqn:E.
+    + destruct (names_ok _ names) eqn:OK; auto.
+      destruct (host_char c names dflt m OK) as [rs' [E' HC]]. rewrite E in E'. inversion E'; subst rs'.
+      unfold ok_ruleset. apply forallb_forall. intros k Hk. apply forallb_forall. intros pd _.
+      rewrite HC by auto. rewrite pkt_if_mk. apply result_eqb_refl.
+    + apply divide_none_empty. unfold host_dispatch, host_dispatch_chains, iface_dispatch, opt_app in E.
+      destruct (divide names) as [[cp gs]|]; auto. destruct m as [[|]| |]; discriminate.
+Qed.
